@@ -122,7 +122,7 @@ func (c *Ctx) gatedShapeRules(prefix string) {
 			nNB++
 			got := map[string]bool{}
 			for _, st := range pa.Steps {
-				if sto, ok := st.In.(*ssa.Store); ok && isNilConst(sto.Val) {
+				if sto, ok := st.In.(*ssa.Store); ok && (isNilConst(sto.Val) || isEmptyContainer(sto.Val)) {
 					t := pa.TermsAt(st).Of(sto.Addr)
 					for _, nm := range []string{"gated", "orderedGated"} {
 						if b, ok := t.IsFieldAddr(nm); ok && b.IsParam("0:w") {
@@ -325,6 +325,7 @@ func runC11(c *Ctx) {
 	c.ruleGatedReset("C11.reset")
 	c.ruleGatedDiscard("C11.discard")
 	c.ruleGatedInsert("C11.insert")
+	c.ruleComposer("C11.composer")
 	c.ruleListOps("C11.listops")
 	c.ruleGatedOrder()
 	c.ruleGatedNoGate("C11.nogate")
@@ -452,4 +453,15 @@ func (c *Ctx) ruleGatedOrder() {
 	}
 	r.Check(nFlush > 0 && nGate > 0 && nEmpty > 0, rule, "Process:rows", p.Pos(proc.Pos()), fmt.Sprintf("%d flush, %d withhold, %d empty-id paths checked", nFlush, nGate, nEmpty), "flush / withhold / empty-id paths not all found")
 	_ = token.ADD
+}
+
+// isEmptyContainer: a freshly made map or a new container/list.List.
+func isEmptyContainer(v ssa.Value) bool {
+	switch x := v.(type) {
+	case *ssa.MakeMap:
+		return true
+	case *ssa.Call:
+		return calleeName(&x.Call) == "container/list.New"
+	}
+	return false
 }
